@@ -37,6 +37,7 @@ type Solver struct {
 	Queries  int
 	Errors   int
 	Time     time.Duration
+	IOTime   time.Duration
 	Log      io.Writer // optional transcript
 	TimeoutS int
 }
@@ -190,6 +191,8 @@ func (s *Solver) Check(pc []*sym.Term, extra *sym.Term) Result {
 // CheckIsolated decides the conjunction of cs on an empty base (the synced
 // stack, if any, is popped first).
 func (s *Solver) CheckIsolated(cs []*sym.Term) Result {
+	t00 := time.Now()
+	defer func() { s.IOTime += time.Since(t00) }()
 	if len(s.stack) > 0 {
 		s.send(fmt.Sprintf("(pop %d)", len(s.stack)))
 		s.stack = s.stack[:0]
